@@ -135,7 +135,17 @@ impl<'a> Gram<'a> {
         if self.small(depth) {
             0
         } else {
-            self.rng.below(max + 1)
+            let k = self.rng.below(max + 1);
+            self.long(depth, k)
+        }
+    }
+
+    /// now and then a list is long (real files have lists of dozens of elements)
+    fn long(&mut self, depth: usize, k: usize) -> usize {
+        if !self.small(depth) && self.rng.chance(1, 25) {
+            k + 3 + self.rng.below(12)
+        } else {
+            k
         }
     }
 
@@ -334,6 +344,7 @@ impl<'a> Gram<'a> {
     // Let ::= "let" LetList "in" body
     fn r#let(&mut self, depth: usize, mc: bool) -> T {
         let k = 1 + self.rng.below(2);
+        let k = self.long(depth, k);
         let mut items = Vec::new();
         for i in 0..k {
             if i > 0 {
@@ -389,6 +400,7 @@ impl<'a> Gram<'a> {
     // TemplateArgList ::= "<" TemplateArgDecl ( "," TemplateArgDecl )* ">"
     fn template_arg_list(&mut self, depth: usize) -> T {
         let k = 1 + self.rng.below(3);
+        let k = self.long(depth, k);
         let mut ch = vec![t("<")];
         for i in 0..k {
             if i > 0 {
@@ -413,6 +425,7 @@ impl<'a> Gram<'a> {
     // ParentClassList ::= ( ":" ClassRef ( "," ClassRef )* )?
     fn parent_class_list(&mut self, depth: usize, min: usize) -> T {
         let k = if min > 0 { min + self.rng.below(2) } else if self.rng.chance(1, 2) { 0 } else { 1 + self.rng.below(2) };
+        let k = if k > 0 { self.long(depth, k) } else { 0 };
         let mut ch = Vec::new();
         for i in 0..k {
             ch.push(t(if i == 0 { ":" } else { "," }));
@@ -435,6 +448,7 @@ impl<'a> Gram<'a> {
     // ArgValueList ::= ( ArgValue ( "," ArgValue )* )?   positional before named
     fn arg_value_list(&mut self, depth: usize) -> T {
         let k = self.rng.below(4);
+        let k = if k > 0 { self.long(depth, k) } else { 0 };
         let named_from = self.rng.below(k + 1);
         let mut ch = Vec::new();
         for i in 0..k {
@@ -517,6 +531,7 @@ impl<'a> Gram<'a> {
     // RangeList ::= RangePiece ( "," RangePiece )*
     fn range_list(&mut self) -> T {
         let k = 1 + self.rng.below(3);
+        let k = self.long(0, k);
         let mut ch = Vec::new();
         for i in 0..k {
             if i > 0 {
@@ -542,6 +557,7 @@ impl<'a> Gram<'a> {
     pub fn value(&mut self, depth: usize) -> T {
         self.spend();
         let k = if self.rng.chance(1, 8) && !self.small(depth) { 2 + self.rng.below(2) } else { 1 };
+        let k = if k > 1 { self.long(depth, k) } else { k };
         let mut ch = Vec::new();
         for i in 0..k {
             if i > 0 {
@@ -592,6 +608,7 @@ impl<'a> Gram<'a> {
 
     fn value_list(&mut self, depth: usize, bra: &str, ket: &str, min: usize, max: usize) -> Vec<T> {
         let k = if self.small(depth) { min } else { min + self.rng.below(max - min + 1) };
+        let k = if k > 0 { self.long(depth, k) } else { 0 };
         let mut ch = vec![t(bra)];
         for i in 0..k {
             if i > 0 {
@@ -639,6 +656,7 @@ impl<'a> Gram<'a> {
             10 => self.bang(depth + 1),
             _ => {
                 let k = 1 + self.rng.below(3);
+                let k = self.long(depth, k);
                 let mut ch = vec![t("!cond"), t("(")];
                 for i in 0..k {
                     if i > 0 {
